@@ -1,6 +1,7 @@
 /-
 C16 — Trading halt rule: no fills on a stopped market; halt and resume on schedule.
 -/
+import PamsLemmas.SrcEvents
 import PamsLemmas.SourceTie
 import PamsModel.Events
 import PamsProps.C08
@@ -100,5 +101,44 @@ theorem nonvacuous :
 theorem source_halt_tests :
     Pams.Source.opsOf "TradingHaltRule.hooked_after_execution" = [">=", "==", "is"] ∧
     Pams.Source.opsOf "TradingHaltRule.hooked_before_step_for_market" = [">", "==", "is", "is not", "is not"] := by decide
+
+
+/-! ### (T2) the current source text of `TradingHaltRule`, by symbolic execution -/
+section SourceCode
+open Pams.Py Pams.Src
+variable {K : Type} [LinearOrder K] [NumOpsC K]
+
+/-- **the source of `hooked_after_execution` is the model's `haltAfterFill` ∘ `haltTest`** -/
+theorem code_halt_after_execution (r p0 p : K) (time acts started length : Nat) (running sesFlag : Bool) :
+    resultG thrObs (rhoHalt r p0 p 5 time acts started length running sesFlag) evEnv FUEL
+      "TradingHaltRule.hooked_after_execution" [.ref 3, .ref 7, .ref 9] (thrSt 0 0)
+      = (let s : Events.HaltState := { halted := none, startedAt := started, activations := acts }
+         let r' := Events.haltAfterFill [5] s 5 running (Events.haltTest p0 r p acts) time
+         .tuple [.bool (if r'.2 then false else running), .int r'.1.startedAt, .int r'.1.activations,
+                 .bool (if r'.2 then false else sesFlag),
+                 (if r'.2 then .ref 5 else .none), (if r'.2 then .ref 8 else .none)]) :=
+  thr_after_execution r p0 p time acts started length running sesFlag
+
+/-- **the source of `hooked_before_step_for_market` is the model's `haltBeforeStep`** -/
+theorem code_resume (r p0 p : K) (time acts started length : Nat) (running sesFlag : Bool) :
+    resultG thrObs (rhoHalt r p0 p 5 time acts started length running sesFlag) evEnv FUEL
+      "TradingHaltRule.hooked_before_step_for_market" [.ref 3, .ref 7, .ref 5] (thrSt 5 8)
+      = (let s : Events.HaltState := { halted := some 5, startedAt := started, activations := acts }
+         let r' := Events.haltBeforeStep length s 5 time
+         .tuple [.bool (if r'.2 then true else running), .int r'.1.startedAt, .int r'.1.activations,
+                 .bool (if r'.2 then true else sesFlag),
+                 (if r'.2 then .none else .ref 5), (if r'.2 then .none else .ref 8)]) :=
+  thr_before_step_in_force r p0 p time acts started length running sesFlag
+
+/-- no halt of this rule in force ⇒ the before-step hook changes nothing (no spurious resume) -/
+theorem code_no_spurious_resume (r p0 p : K) (time acts started length : Nat) (running sesFlag : Bool)
+    (hm hs : Nat) (h : (hm = 0 ∧ hs = 0) ∨ (hm = 6 ∧ hs = 8) ∨ (hm = 5 ∧ hs = 9)) :
+    resultG thrObs (rhoHalt r p0 p 5 time acts started length running sesFlag) evEnv FUEL
+      "TradingHaltRule.hooked_before_step_for_market" [.ref 3, .ref 7, .ref 5] (thrSt hm hs)
+      = .tuple [.bool running, .int started, .int acts, .bool sesFlag,
+                (if hm = 0 then .none else .ref hm), (if hs = 0 then .none else .ref hs)] :=
+  thr_before_step_no_halt r p0 p time acts started length running sesFlag hm hs h
+
+end SourceCode
 
 end Pams.C16
